@@ -36,6 +36,14 @@ def _make_scratch():
 _scratch_pid = None
 
 
+def drop_scratch():
+    """Remove this process's scratch directory now (a later scratch_dir() call makes a new one)."""
+    global _scratch
+    if _scratch is not None and _scratch_pid == os.getpid():
+        shutil.rmtree(_scratch, ignore_errors=True)
+        _scratch = None
+
+
 def clean_scratch():
     d = scratch_dir()
     for sub in ("inputs", "outputs"):
